@@ -1159,7 +1159,10 @@ func (sc *serverConn) wroteFrame(res frameWriteResult) {
 
 	closeStream := endsStream(wm.write)
 
-	if _, ok := wm.write.(handlerPanicRST); ok {
+	if _, ok := wm.write.(handlerPanicRST); ok && st.state != stateClosed {
+		// The stream may have been closed while this write was in
+		// flight (RST_STREAM from the peer, stream error, timeout):
+		// closing it again would trip closeStream's invariant check.
 		sc.closeStream(st, errHandlerPanicked)
 	}
 
